@@ -236,8 +236,13 @@ def c15_r6(ctx):
         if len(comps) != 1:
             raise AnalysisError(f"{fi.key}: line-splitting comprehension not found")
         c = comps[0]
+        import copy as _copy
         lv = norm(c.generators[0].target)
-        return norm(c.elt).replace(lv, "LINE"), norm(c.generators[0].iter).split(".splitlines")[0], [norm(i) for i in c.generators[0].ifs]
+
+        class _R(ast.NodeTransformer):
+            def visit_Name(self, n):
+                return ast.copy_location(ast.Name(id="LINE", ctx=n.ctx), n) if n.id == lv else n
+        return norm(_R().visit(_copy.deepcopy(c.elt))), norm(c.generators[0].iter).split(".splitlines")[0], [norm(_R().visit(_copy.deepcopy(i))) for i in c.generators[0].ifs]
     ea, srca, ifa = elt(a, "gql")
     eb, srcb, ifb = elt(b, "operation_str")
     ctx.check(ea == eb and ifa == ifb == [], key(a, "line constants"), f"operations module builds lines as {ea} {ifa}, the client as {eb} {ifb}", a.loc(), okmsg=f"both emit {ea} per line, unfiltered")
